@@ -175,7 +175,7 @@ def main():
                 out.append('    proof { %s }' % ' '.join('reveal_strlit("%s");' % l for l in lits))
             out.append('@closure %d ret "(fitem: FlowItem<\'a>)"' % k)
             out.append('  requires')
-            out.append('    - tree_wf(%s)' % cp)
+            out.append('    - child_wf(%s)' % cp)
             out.append('    - !is_comment_kind(%s.kind_s())' % cp)
             out.append('  ensures')
             out.append('    - [producer_docs_closed C04 C06 C12] fitem.0 matches Some(rp) ==> doc_closed(rp.doc@, self.unit_s())')
